@@ -1,11 +1,11 @@
 CONSTANTS
   Ctxs = {1, 2, 3}
   Names = {"x", "y"}
-  Boxes = {1, 2}
+  Boxes = {2, 3}
   Vals = {0, 1}
   MaxStack = 2
   MaxOps = 7
-  OpKinds = {"set", "get", "del", "iter", "release", "push", "pop", "top", "release_stack", "cleanup", "mkproxy", "proxy_read", "proxy_mutate", "spawn"}
+  OpKinds = {"set", "get", "del", "iter", "release", "push", "pop", "top", "release_stack", "cleanup", "mkproxy", "proxy_read", "proxy_mutate", "proxy_pop", "proxy_clear", "spawn"}
   Made0 <- NoneMade
 INIT Init
 NEXT Next
